@@ -1,7 +1,7 @@
 (* C01/Gate.v — the command-name gate of _callCommand *)
 From Coq Require Import List NArith ZArith Bool Arith Lia.
 Import ListNotations.
-Require Import Base.Wire Base.PyStr C03.Model C03.Fold C03.CaseInsens C03.Anti C03.Total C01.Model.
+Require Import Base.Wire Base.PyStr C03.Model C03.Fold C03.CaseInsens C03.Anti C03.Total C01.Model C01.Denial.
 Open Scope N_scope.
 
 (* ---- what "the gate lets name n through" means (the property text) ---- *)
@@ -129,8 +129,8 @@ Proof.
 Qed.
 
 (* C01_gate *)
-Theorem gate_sound d chan plugin canon command pre m :
-  In EvBody (callCommand_trace d chan plugin canon command pre m) ->
+Theorem gate_sound d chan nc plugin canon command pre m :
+  In EvBody (callCommand_trace d chan nc plugin canon command pre m) ->
   Forall (name_passes d chan) (gate_names canon command).
 Proof.
   unfold callCommand_trace, gate, gate_names.
@@ -139,19 +139,19 @@ Proof.
   - destruct (checkCommandCapability d chan y) as [v|e] eqn:Ey; cbn [bind].
     2:{ cbn. intros [H|[]]; discriminate. }
     destruct (truthy v) eqn:Et.
-    { cbn. intros [H|[]]; discriminate. }
+    { rewrite gate_refusal_always. cbn. intros [H|[]]; discriminate. }
     destruct (gate_loop d chan plugin [] (fullName canon command)) as [[v'|]|e] eqn:El.
-    { cbn. intros [H|[]]; discriminate. }
+    { rewrite gate_refusal_always. cbn. intros [H|[]]; discriminate. }
     2:{ cbn. intros [H|[]]; discriminate. }
     intros _. constructor; [eapply ccc_pass; eassumption|].
     apply gate_loop_pass in El. rewrite Forall_map. exact El.
 Qed.
 
 (* the gate is the only way to the body: without a pass there is exactly one event *)
-Lemma trace_no_body_if_refused d chan plugin canon command pre m v :
+Lemma trace_no_body_if_refused d chan nc plugin canon command pre m v :
   gate d chan plugin canon command = Ok (Some v) ->
-  callCommand_trace d chan plugin canon command pre m = [EvNoCap v].
-Proof. unfold callCommand_trace. intro H. rewrite H. reflexivity. Qed.
+  callCommand_trace d chan nc plugin canon command pre m = [EvNoCap v].
+Proof. unfold callCommand_trace. intro H. rewrite H. apply gate_refusal_always. Qed.
 
 (* ---- well-formed names: totality and the refusal for a held anti-capability ---- *)
 Definition wf_name (n : str) : bool := wf_cap n && negb (mem COMMA n) && negb (hd_is DASH n).
@@ -252,38 +252,38 @@ Proof.
   unfold holds in *. rewrite Hh in Ho. inversion Ho. reflexivity.
 Qed.
 
-Theorem plugin_denied d chan P command pre m :
+Theorem plugin_denied d chan nc P command pre m :
   wf_name P = true -> db_ok d = true -> chan_ok chan = true ->
   (forall y r, rev command = y :: r -> wf_name y = true) -> command <> [] ->
   holds d P = Ok false ->
-  exists v, callCommand_trace d chan P P command pre m = [EvNoCap v].
+  exists v, callCommand_trace d chan nc P P command pre m = [EvNoCap v].
 Proof.
   intros HP Hok Hch Hy Hne Hh.
   unfold callCommand_trace, gate.
   destruct (rev command) as [|y r] eqn:Er.
   { apply (f_equal (@rev str)) in Er. rewrite rev_involutive in Er. cbn in Er. congruence. }
   destruct (ccc_total d chan y (Hy _ _ eq_refl) Hch) as [v Hv]. rewrite Hv. cbn [bind].
-  destruct (truthy v) eqn:Et; [eauto|].
+  destruct (truthy v) eqn:Et; [rewrite gate_refusal_always; eauto|].
   destruct (fullName_head P command Hne) as [h [t [Hf Hh2]]]. rewrite Hf.
   cbn [gate_loop app]. unfold ccc_list. rewrite Hh2. cbn [negb].
   apply seq_eqb_eq in Hh2. subst h. cbn [join].
   rewrite (ccc_denied_plain d chan P HP (not_holding_is_anti d P HP Hok Hh)). cbn [bind truthy].
-  rewrite (wf_name_nonempty _ HP). eauto.
+  rewrite (wf_name_nonempty _ HP). rewrite gate_refusal_always. eauto.
 Qed.
 
 Lemma wf_owner : wf_name OWNER = true. Proof. vm_compute. reflexivity. Qed.
 Lemma wf_admin : wf_name ADMIN = true. Proof. vm_compute. reflexivity. Qed.
 
-Theorem owner_admin_denied d chan P command pre m :
+Theorem owner_admin_denied d chan nc P command pre m :
   (P = OWNER \/ P = ADMIN) -> db_ok d = true -> chan_ok chan = true ->
   (forall y r, rev command = y :: r -> wf_name y = true) -> command <> [] ->
   holds d P = Ok false ->
-  (exists v, callCommand_trace d chan P P command pre m = [EvNoCap v]) /\
-  ~ In EvBody (callCommand_trace d chan P P command pre m).
+  (exists v, callCommand_trace d chan nc P P command pre m = [EvNoCap v]) /\
+  ~ In EvBody (callCommand_trace d chan nc P P command pre m).
 Proof.
   intros HP Hok Hch Hy Hne Hh.
   assert (Hwf : wf_name P = true) by (destruct HP; subst; [exact wf_owner|exact wf_admin]).
-  destruct (plugin_denied d chan P command pre m Hwf Hok Hch Hy Hne Hh) as [v Hv].
+  destruct (plugin_denied d chan nc P command pre m Hwf Hok Hch Hy Hne Hh) as [v Hv].
   split; [eauto|]. rewrite Hv. cbn. intros [H|[]]. discriminate.
 Qed.
 
@@ -298,7 +298,8 @@ Definition CHAN : str := [35; 116; 101; 115; 116].
 (* an unknown caller, `owner load` in #test: refused with the owner capability; `utilities echo`: the body runs *)
 Example owner_load_refused :
   db_ok ex_db_unknown = true /\ holds ex_db_unknown OWNER = Ok false /\
-  callCommand_trace ex_db_unknown (Some CHAN) OWNER OWNER [LOAD] false None = [EvNoCap (PStr OWNER)] /\
-  callCommand_trace ex_db_unknown (Some CHAN) UTIL UTIL [ECHO] false None = [EvBody] /\
+  callCommand_trace ex_db_unknown (Some CHAN) [120] OWNER OWNER [LOAD] false None = [EvNoCap (PStr OWNER)] /\
+  callCommand_trace ex_db_unknown (Some CHAN) [] OWNER OWNER [LOAD] false None = [EvNoCap (PStr OWNER)] /\
+  callCommand_trace ex_db_unknown (Some CHAN) [] UTIL UTIL [ECHO] false None = [EvBody] /\
   gate_names UTIL [ECHO] = [ECHO; UTIL; UTIL ++ [DOT] ++ ECHO].
-Proof. vm_compute. auto 6. Qed.
+Proof. vm_compute. auto 8. Qed.
